@@ -301,6 +301,68 @@ def quant_cases(sh, rng, n):
     return out
 
 
+def nested_bool_cases(sh):
+    """nested and/or shapes: the flattening branch of walk_and / walk_or meets a literal whose complement
+    (modulo double negation) was collected from an earlier sibling, or vice versa"""
+    m, u = sh.m, sh.u
+    p, q, r = u.syms[BOOL]
+    x, y = u.syms[INT][0], u.syms[INT][1]
+    atom = m.LE(x, y)
+    lits = [p, m.Not(p), q, atom, m.Not(atom)]
+    thirds = [r, m.LT(y, x)]
+    ops = {"and": m.And, "or": m.Or}
+    out = []
+    for oname, O in ops.items():
+        for iname, Inner in ops.items():          # inner operator: the same (flattened) and the dual (kept)
+            for a in lits:
+                for b in lits:
+                    if b is a:
+                        continue
+                    for c in thirds:
+                        na, nb = m.Not(a), m.Not(b)
+                        shapes = [O(a, Inner(na, b)), O(Inner(a, b), na), O(a, b, Inner(c, nb)),
+                                  O(Inner(a, b), Inner(nb, c)), O(Inner(na, b), a), O(a, Inner(b, c), na),
+                                  O(Inner(a, c), Inner(b, na))]
+                        for f in shapes:
+                            out.append(("rule:%s" % oname, f))
+    return out
+
+
+def ground_arith_cases(sh):
+    """ground arithmetic: every small integer division (all sign combinations), real division, products, sums and
+    differences of small constants -- alone and under an equality with a symbol"""
+    m, u = sh.m, sh.u
+    x, a = u.syms[INT][0], u.syms[REAL][0]
+    out = []
+    for l in range(-12, 13):
+        for r in range(-6, 7):
+            if r == 0:
+                continue
+            d = m.Div(m.Int(l), m.Int(r))
+            out.append(("rule:div", d))
+            out.append(("rule:div", m.Equals(x, d)))
+    big = 10 ** 20 + 1
+    for l, r in [(big, 3), (big, -3), (-big, 3), (-big, -3), (big, -1), (7, -big), (-7, big)]:
+        out.append(("rule:div", m.Div(m.Int(l), m.Int(r))))
+    rq = [Fraction(n, d) for n in (-3, -1, 0, 1, 2, 7) for d in (1, 2, 3)]
+    for l in rq:
+        for r in (Fraction(-2), Fraction(-1, 2), Fraction(1, 3), Fraction(1), Fraction(3), Fraction(-1)):
+            # Div by a real constant is built as a product with the inverse; the raw DIV node with a constant
+            # divisor only arises after simplification of the divisor
+            out.append(("rule:div", m.Div(m.Real(l), m.Real(r))))
+            out.append(("rule:div", m.Div(m.Real(l), m.Ite(u.syms[BOOL][0], m.Real(r), m.Real(r)))))
+            out.append(("rule:div", m.LT(a, m.Div(m.Real(l), m.Plus(m.Real(r), m.Real(0))))))
+    for l in range(-3, 4):
+        for r in range(-3, 4):
+            for O, nm in ((m.Times, "times"), (m.Plus, "plus"), (m.Minus, "minus")):
+                out.append(("rule:" + nm, O(m.Int(l), m.Int(r))))
+                out.append(("rule:" + nm, m.LE(O(m.Int(l), m.Int(r)), x)))
+                out.append(("rule:" + nm, O(m.Real(Fraction(l, 2)), m.Real(Fraction(r, 3)))))
+            out.append(("rule:div", m.Div(m.Ite(u.syms[BOOL][0], m.Int(l), m.Int(l)), m.Plus(m.Int(r), m.Int(0))))
+                       if r != 0 else ("rule:times", m.Times(m.Int(l), m.Int(r), x)))
+    return out
+
+
 def rnd2(rng, pals, k):
     return [tuple(rng.randrange(len(p)) for p in pals) for _ in range(k)]
 
@@ -576,6 +638,11 @@ def generate(ctx):
         cases.append((tag, env, f))
     for tag, f in quant_cases(sh, rng, 400 if quick else 6000):
         cases.append((tag, env, f))
+    seen = set()
+    for tag, f in nested_bool_cases(sh) + ground_arith_cases(sh):
+        if id(f) not in seen:
+            seen.add(id(f))
+            cases.append((tag, env, f))
     for tag, f in pow_probe(env):
         cases.append((tag, env, f))
     # random type-directed stream; a fresh environment every 400 formulas
